@@ -40,5 +40,3 @@ for id in "$@"; do
   VERIF_REPO="$WT" ./run.sh "$id" "${TIER:-quick}" 2>&1 | grep -E "^violation|VIOLATION|KNOWN|trouble|quick:|thorough:" | head -8
   echo "check_${id}_rc=${PIPESTATUS[0]}"
 done
-# rebuild against /repo so bin/ is never left pointing at the scratch tree
-./run.sh setup >/dev/null 2>&1
